@@ -216,7 +216,7 @@ def tag [ByteLike β] (t : List Nat) : Parser β Unit := fun i =>
 /-- `many0(f)`. nom stops with `Error(Many0)` when `f` succeeds without consuming; every parser
     of this crate returns a suffix of its input, so "did not get shorter" is that check. -/
 def many0 (f : Parser β α) (i : List β) : Res β (List α) :=
-  match _h : f i with
+  match f i with
   | .error _ => .ok i []
   | .incomplete n => .incomplete n
   | .failure k => .failure k
@@ -227,7 +227,7 @@ termination_by i.length
 
 /-- the loop of `many1(f)` after the first element -/
 def many1Loop (f : Parser β α) (i : List β) : Res β (List α) :=
-  match _h : f i with
+  match f i with
   | .error _ => .ok i []
   | .incomplete n => .incomplete n
   | .failure k => .failure k
